@@ -41,5 +41,5 @@ class Thing:
     def __init__(self) -> None:
         Thing.made += 1
         self.serial = Thing.made
-        if Thing.made % 2 == 1:
-            self.first = 1
+        if Thing.made == 1:      # only the very first instance of the process (not periodic: a value
+            self.first = 1       # that comes back every other execution defeats ANY finite re-execution filter)
